@@ -887,6 +887,8 @@ func (x *Explorer) fieldAddr(st *State, base Val, f string, elem types.Type) Val
 	case *SymPtr:
 		return &SymPtr{Base: b.Base + "." + f, T: elem}
 	case *Sym:
+		// dereferencing a pointer: on the continuing path it is not nil (a nil dereference panics)
+		st.assume("Nil("+st.find(b.N)+")", false)
 		return &SymPtr{Base: b.N + "." + f, T: elem}
 	case *KConst:
 		return &SymPtr{Base: "nilderef." + f, T: elem}
@@ -1231,6 +1233,19 @@ func sentinelClass(name string) string {
 func (x *Explorer) nilTest(st *State, v Val, neg bool) Val {
 	switch p := v.(type) {
 	case *Ptr:
+		// a row returned by an ORM Get is nil exactly when the Get failed
+		if o := st.mem[p.O]; o != nil && o.Kind == "row" && o.ErrID != 0 && p.Path == "" {
+			switch st.errs[o.ErrID] {
+			case 1:
+			case 2:
+				if neg {
+					return kFalse
+				}
+				return kTrue
+			default:
+				return &BoolV{F: fmt.Sprintf("ErrNil(%d)", o.ErrID), Neg: !neg}
+			}
+		}
 		if neg {
 			return kTrue
 		}
